@@ -47,6 +47,9 @@ CLAIMED = {
  "C18": dict(
    text="offset lemmas (roffset/woffset) for arbitrary 64-bit positions; one-step refinement of the memory and file backed stores (readSomeAt from an arbitrary offset and write position: exact bytes or ErrInvalidOffset exactly when overwritten/future; writeSome; dataRange) against a ghost stream; sequential API behaviour (Reader, SeekTo/IsValid, wrap beyond capacity, close); protocol runs with one writer and up to two blocked readers under every interleaving (Broadcast wake-up, close wakes all with an error, no deadlock)",
    note=NOTE_COMMON + "concrete ring sizes in the lemmas; step lemmas on an 8-byte ring; induction over histories on paper; sync primitives are engine primitives; *os.File is a byte-store stub in the file flavour"),
+ "C19": dict(
+   text="information flow decided by the solver: source and target passwords are unconstrained symbolic strings; every log call reached (sync start incl. constructor, retry bookkeeping, topology discovery with every outcome, checkpoint load, failing PSYNC and restart; checkpoint loader; slot supervisor) is rendered with a model of fmt's %v/%+v/%s traversal, and for each rendered line, GetExtraInfo value and the GetSafeOptions copy the query 'exists a password value not contained in the text' must be satisfiable; unsat = the password flows into the output",
+   note=NOTE_COMMON + "the fmt model (struct/pointer/slice/map traversal, Error/String methods) is engine code and trusted; main's startup echo, the HTTP layer and third-party logging are outside; sendPSyncCmd and the metric registry are stubbed"),
  "C20": dict(
    text="getRedisNodeState on INFO text with symbolic filler against a reference role parser, and GetSlotState/recursiveGetSlotState with an injected connection factory whose outcome per node and per retry round (connect error, command error, master, slave, no role, role not at line start) is a solver-visible choice: chosen source reported master in the deciding round, every other known node listed once as replica, erroring nodes never chosen, exactly maxRetries+1 rounds then an error when no master exists",
    note=NOTE_COMMON + "<= 3 nodes x <= 2 rounds quick (4 nodes / 3 rounds thorough); time.Sleep has no duration; the real network factory is outside"),
